@@ -532,6 +532,9 @@ and, for the mode / partition / rotation the block shows,
 * `rots`: admissible rotation fields (modes 4, 5; `none` = the mode has no such field);
 * `sel`: mode 4 with a constant separated channel returns the `C3A2` candidate alone (index-selection bit 1);
 * `pbits`: per stored p-bit `some 1` = forced to 1 (mode 6: opaque block; mode 7: per opaque subset), `none` = free;
+  `inside` marks the positions that lie inside the image: a subset of mode 7 that contains a padded position is left
+  free, so that the rule does not depend on WHICH pixel of the block the padding repeats (every other ingredient —
+  minima, maxima, constancy, the grey test — is a function of the set of pixel values, which padding does not change);
 * `alpha`: the alpha endpoint fields as an unordered pair when the separated channel of modes 4 / 5 is constant. -/
 structure Bc7Rule where
   modes : List Nat
@@ -546,7 +549,7 @@ def pbitRule (p : Option (Bool × Bool)) : List (Option Nat) :=
   | some (a, b) => [some (if a then 1 else 0), some (if b then 1 else 0)]
   | none => [none, none]
 
-def bc7Rule (q : Quality) (px : List Px) (mode part rot : Nat) : Bc7Rule :=
+def bc7Rule (q : Quality) (px : List Px) (inside : List Bool) (mode part rot : Nat) : Bc7Rule :=
   match singleColour px with
   | some c => { modes := [5], rots := some [0], sel := none, pbits := [], alpha := some (c.a, c.a) }
   | none =>
@@ -568,7 +571,8 @@ def bc7Rule (q : Quality) (px : List Px) (mode part rot : Nat) : Bc7Rule :=
       { modes := modes, rots := none, sel := none, pbits := pbitRule (subsetPBits q (decide (minA = 255))), alpha := none }
     else if mode = 7 then
       let opaqueSubset (s : Nat) : Bool :=
-        (List.range 16).all fun i => BcTables.specSubset 2 part i != s || (px.getD i ⟨0, 0, 0, 0⟩).a == 255
+        (List.range 16).all fun i => BcTables.specSubset 2 part i != s ||
+          (inside.getD i false && (px.getD i ⟨0, 0, 0, 0⟩).a == 255)
       { modes := modes, rots := none, sel := none,
         pbits := pbitRule (subsetPBits q (opaqueSubset 0)) ++ pbitRule (subsetPBits q (opaqueSubset 1)), alpha := none }
     else
